@@ -368,6 +368,16 @@ def proof_phase(ctx, module=None, extra_targets=()):
     bad = hygiene()
     for b in bad:
         ctx.broken.append('hygiene: ' + b)
+    if ctx.thorough and not ctx.broken and not os.environ.get('VERIF_NO_COQCHK'):
+        # independent re-check of the compiled files with coqchk (thorough tier only: about a minute, several GB)
+        rc, out = run(['coqchk', '-silent', '-o', '-Q', COQ, 'Y2', 'Y2.Properties.' + module], timeout=1800, cwd=COQ)
+        m = re.search(r'\* Axioms:(.*?)\n\s*\n\* Constants/Inductives relying on type-in-type:(.*?)\n\s*\n\* Constants/Inductives relying on unsafe \(co\)fixpoints:(.*?)\n\s*\n\* Inductives whose positivity is assumed:(.*?)\n', out + '\n\n', re.S)
+        ctx.coqchk = {'rc': rc, 'axioms': m.group(1).strip() if m else out[-500:], 'type_in_type': m.group(2).strip() if m else '?',
+                      'unsafe_fixpoints': m.group(3).strip() if m else '?', 'assumed_positivity': m.group(4).strip() if m else '?'}
+        if rc != 0:
+            ctx.broken.append('coqchk rejects Properties.%s: %s' % (module, out[-300:].replace('\n', ' ')))
+        elif m and any(x.strip() != '<none>' for x in m.groups()[1:]):
+            ctx.broken.append('coqchk reports disabled checks: ' + ' | '.join(x.strip() for x in m.groups()[1:]))
     return not ctx.broken
 
 
@@ -498,6 +508,8 @@ def finish(ctx, coverage=None, assumptions=None, explanation=None):
         'known_findings_printed': ctx.known_hits,
         'repo_hash': repo_hash(),
     }
+    if getattr(ctx, 'coqchk', None):
+        cov['coqchk'] = ctx.coqchk
     if explanation:
         cov['explanation'] = explanation
     cov.update(coverage)
